@@ -148,7 +148,7 @@ func propC11(c *Check) {
 			for _, in := range b.Instrs {
 				if mu, ok := in.(*ssa.MapUpdate); ok {
 					v := p.R(L).E(mu.Value)
-					if strings.HasSuffix(v, ", [cosmos-sdk/types.NewCoin(locking/types.TokenDenom($2[(1 + φ{-1|@})].Token), sdkmath.NewIntFromBigInt($2[(1 + φ{-1|@})].Amount))])") && strings.HasPrefix(v, "Coins.Add(") {
+					if strings.HasSuffix(v, ", [cosmos-sdk/types.NewCoin(locking/types.TokenDenom($2[φ{(1 + @)|0}].Token), sdkmath.NewIntFromBigInt($2[φ{(1 + @)|0}].Amount))])") && strings.HasPrefix(v, "Coins.Add(") {
 						agg = true
 					}
 				}
@@ -179,7 +179,7 @@ func propC11(c *Check) {
 			continue
 		}
 		L := m[1]
-		if m[2] != L || m[3] != L || m[6] != L || !strings.HasSuffix(L, ".Locking[(1 + φ{-1|@})]") {
+		if m[2] != L || m[3] != L || m[6] != L || !strings.HasSuffix(L, ".Locking[φ{(1 + @)|0}]") {
 			c.Violated("R2", "slash-credited @ "+sl.key, p.InstrPos(sets[0]), "slash amounts refer to different coins: "+setStr)
 			continue
 		}
@@ -191,7 +191,7 @@ func propC11(c *Check) {
 		}
 		trunc := "LegacyDec.TruncateInt(LegacyDec.Mul(sdkmath.LegacyNewDecFromInt(" + L + ".Amount), " + m[4] + "." + m[5] + "))"
 		// holding after the slash: sum over coins of (amount − truncated slash), nothing kept when it truncates to zero
-		wantHold := "φ{[]|φ{@|Coins.Add(@, [cosmos-sdk/types.NewCoin(" + L + ".Denom, Int.Sub(" + L + ".Amount, " + trunc + "))])}}"
+		wantHold := "φ{Coins.Add(@, [cosmos-sdk/types.NewCoin(" + L + ".Denom, Int.Sub(" + L + ".Amount, " + trunc + "))])|[]}"
 		okHold := false
 		var holdStore []ssa.Instruction
 		for _, s := range p.renderedStores(f) {
@@ -207,7 +207,7 @@ func propC11(c *Check) {
 			c.Held("R2", "holding-reduced-by-slash @ "+sl.key, p.InstrPos(sets[0]), "kept = amount − slashed for every coin")
 		}
 		// "everything" is taken exactly when the truncated slash is zero, and then nothing is kept
-		c.RequireFact(f, "R2", "every-coin-slashed", `^\(len\(.*\.Locking\) <= \(1 \+ φ\{-1\|@\}\)\)$`, instrSet(holdStore), "holding replaced")
+		c.RequireFact(f, "R2", "every-coin-slashed", `^\(len\(.*\.Locking\) <= φ\{\(1 \+ @\)\|0\}\)$`, instrSet(holdStore), "holding replaced")
 		if skip, path := loopIterationCanSkip(f, sets[0]); skip {
 			c.Violated("R2", "slash-credited-every-coin @ "+sl.key, p.InstrPos(sets[0]), "a coin can be taken from the holding without being credited to Slashed", p.describePath(path)...)
 		} else {
@@ -260,13 +260,13 @@ func propC12(c *Check) {
 		okMin, okHalv, okGas := false, false, false
 		for _, ef := range facts {
 			f := noOrd(ef.Fact)
-			if regexp.MustCompile(`^\(0 < Int\.Cmp\(big\.NewInt\(Params\.Get\(\)#0\.InitialBlockReward\), Int\.BigInt\(mix\{.*Remain.*\}\)\)\)$`).MatchString(f) {
+			if regexp.MustCompile(`^\(Int\.BigInt\(mix\{.*Remain.*\}\) < big\.NewInt\(Params\.Get\(\)#0\.InitialBlockReward\)\)$`).MatchString(f) {
 				okMin = true
 			}
-			if f == "(0 < (Context.BlockHeight() / Params.Get()#0.HalvingInterval))" {
+			if f == "(0 < (Context.BlockHeight() / Params.Get()#0.HalvingInterval))" || f == "(0 != (Context.BlockHeight() / Params.Get()#0.HalvingInterval))" {
 				okHalv = true
 			}
-			if f == "(0 < Int.Sign($2[(1 + φ{-1|@})].Amount))" {
+			if f == "(0 < Int.Sign($2[φ{(1 + @)|0}].Amount))" {
 				okGas = true
 			}
 		}
@@ -281,8 +281,8 @@ func propC12(c *Check) {
 		}
 		for _, s := range p.renderedStores(urp) {
 			if s.addr == "RewardPool.Get()#0.Gas" {
-				if regexp.MustCompile(`^Int\.Add\(mix\{@\|RewardPool\.Get\(\)#0\.Gas\}, sdkmath\.NewIntFromBigIntMut\(\$2\[\(1 \+ φ\{-1\|@\}\)\]\.Amount\)\)$`).MatchString(s.val) {
-					c.RequireFact(urp, "R1", "gas-store-guarded", lit("(0 < Int.Sign($2[(1 + φ{-1|@})].Amount))"), instrSet([]ssa.Instruction{s.in}), "gas intake")
+				if regexp.MustCompile(`^Int\.Add\(mix\{Int\.Add\(@, sdkmath\.NewIntFromBigIntMut\(\$2\[φ\{\(1 \+ @\)\|0\}\]\.Amount\)\)\|RewardPool\.Get\(\)#0\.Gas\}, sdkmath\.NewIntFromBigIntMut\(\$2\[φ\{\(1 \+ @\)\|0\}\]\.Amount\)\)$`).MatchString(s.val) {
+					c.RequireFact(urp, "R1", "gas-store-guarded", lit("(0 < Int.Sign($2[φ{(1 + @)|0}].Amount))"), instrSet([]ssa.Instruction{s.in}), "gas intake")
 				} else {
 					c.Violated("R1", "gas-intake @ "+FuncKey(urp), p.InstrPos(s.in), "pool.Gas = "+s.val)
 				}
@@ -295,7 +295,7 @@ func propC12(c *Check) {
 	dr := p.MustFn("x/locking/keeper.Keeper.DistributeReward")
 	c.touch(dr)
 	{
-		i := "(1 + φ{-1|@})"
+		i := "φ{(1 + @)|0}"
 		vi := "Context.VoteInfos()[" + i + "].Validator"
 		frac := `LegacyDec\.(\w+)\(sdkmath\.LegacyNewDec\(` + regexp.QuoteMeta(vi+".Power") + `\), sdkmath\.LegacyNewDec\(φ\{\(@ \+ ` + regexp.QuoteMeta(vi+".Power") + `\)\|0\}\)\)`
 		V := "Validators.Get(" + vi + ".Address)#0"
@@ -366,15 +366,15 @@ func propC12(c *Check) {
 	cl := p.MustFn("x/locking/keeper.Keeper.Claim")
 	c.touch(cl)
 	{
-		V := "Validators.Get(Address.Bytes($2[(1 + φ{-1|@})].Validator))#0"
+		V := "Validators.Get(Address.Bytes($2[φ{(1 + @)|0}].Validator))#0"
 		want := map[string]string{
 			"new(locking/types.Reward)#0.Goat":      V + ".Reward",
 			"new(locking/types.Reward)#0.Gas":       V + ".GasReward",
-			"new(locking/types.Reward)#0.Id":        "$2[(1 + φ{-1|@})].Id",
-			"new(locking/types.Reward)#0.Recipient": "Address.Bytes($2[(1 + φ{-1|@})].Recipient)",
+			"new(locking/types.Reward)#0.Id":        "$2[φ{(1 + @)|0}].Id",
+			"new(locking/types.Reward)#0.Recipient": "Address.Bytes($2[φ{(1 + @)|0}].Recipient)",
 			V + ".Reward":                           "sdkmath.ZeroInt()",
 			V + ".GasReward":                        "sdkmath.ZeroInt()",
-			"EthTxQueue.Get()#0.Rewards":            "append(mix{@|EthTxQueue.Get()#0.Rewards}, [new(locking/types.Reward)#0])",
+			"EthTxQueue.Get()#0.Rewards":            "append(mix{EthTxQueue.Get()#0.Rewards|append(@, [new(locking/types.Reward)#0])}, [new(locking/types.Reward)#0])",
 		}
 		for _, s := range p.renderedStores(cl) {
 			if w, ok := want[s.addr]; ok {
